@@ -189,7 +189,7 @@ class Hist:
         cur = self.w.kids(ir)
         n = len(cur)
         meth = rng.choice(self.cfg.get("modm", ["append", "insert", "extend", "iadd", "remove", "pop", "delitem", "delslice", "setitem",
-                                                "setslice", "clear", "reverse"]))
+                                                "setslice", "setext", "clear", "reverse"]))
         idx = rng.choice([0, -1, 1, n - 1, n, -n, -n - 1, n + 2, 2]) if rng.random() < 0.5 else (rng.randrange(n) if n else 0)
         if rng.random() < 0.06:
             idx = rng.choice([1 << 63, (1 << 63) - 1, -(1 << 63), -(1 << 63) - 1, (1 << 64) - 1])      # beyond the machine word: OverflowError from insert / pop, before anything moves
@@ -238,6 +238,25 @@ class Hist:
                 if others:
                     vs = list(self.w.kids(rng.choice(others)))
             self.emit([12, ir, a, b, vs])
+        elif meth == "setext":
+            # an extended slice: the right-hand side has the size of the slice (mostly), members of the list, modules of elsewhere,
+            # repeated values; also a wrong size and step 0 (ValueError, nothing touched)
+            a, b = ob(), ob()
+            st = rng.choice([2, -1, -2, 3, -3, 0, 2, -1])
+            try:
+                npos = len(range(*slice(a[0] if a else None, b[0] if b else None, st).indices(n)))
+            except ValueError:
+                npos = 0
+            k = npos if rng.random() < 0.8 else rng.choice([0, 1, npos + 1])
+            r = rng.random()
+            if r < 0.3 and len(cur) >= k:
+                vs = rng.sample(cur, k)                      # a rearrangement of members
+            elif r < 0.6:
+                vs = [rng.choice(mods) for _ in range(k)]    # anything, repetitions included
+            else:
+                vs = list(dict.fromkeys(rng.choice(mods) for _ in range(3 * k)))[:k]
+                vs += [rng.choice(mods) for _ in range(k - len(vs))]
+            self.emit([32, ir, a, b, st, vs])
         elif meth == "clear":
             self.emit([13, ir])
         elif meth == "reverse":
